@@ -466,6 +466,12 @@ func (u *Universe) preludeFor(text string) string {
 			b.WriteString("\n")
 		}
 	}
+	if inclFun["spec$secretFree"] {
+		// C17: program literals contain no secret
+		for _, n := range lits {
+			fmt.Fprintf(&b, "(assert (spec$secretFree %s))\n", n)
+		}
+	}
 	if inclFun["strbyte"] {
 		for _, f := range byteFacts {
 			b.WriteString(f)
